@@ -127,6 +127,28 @@ def replay(ctx, rep):
         diff.differential(ctx, "annot", [rep["case"]], split=lambda out: tuple(out.split("#", 1)), oracle=annot_oracle,
                           describe=annot_describe)
         return 0
+    if rep.get("engine") == "deftree":
+        _dt_fill_positions([rep["case"]])
+        diff.differential(ctx, "deftree", [rep["case"]], split=dt_split, oracle=dt_oracle, canon=dt_canon, describe=annot_describe)
+        return 0
+    if rep.get("engine") == "wstree":
+        case = rep["case"]
+        for stem, text in ws_files(case):
+            print("--- %s.god" % stem)
+            print(text)
+        raw = _ws_fill_positions([case])
+        impl = raw[0].split("#", 1)[1] if "#" in raw[0] else raw[0]
+        mod = core.run_lines(diff.Engines.model(), "wstree", raw)[0]
+        print("implementation :", impl[:1500])
+        print("model          :", mod[:1500])
+        print("oracle         :", ws_oracle(case, dt_canon(impl)))
+        try:
+            diff.differential(ctx, "wstree", [case], split=dt_split, oracle=ws_oracle, canon=dt_canon, describe=ws_describe)
+        except core.Violation as v:
+            print("VIOLATION property=%s replay=%s" % (PID, rep.get("how_to_rerun", "").split()[-1] if rep.get("how_to_rerun") else getattr(v, "replay", "?")))
+            return 1
+        print("implementation and model agree, the oracle accepts the implementation's answers")
+        return 0
     return S.replay(ctx, rep, PID)
 
 
@@ -892,20 +914,35 @@ def ws_shrinker(case):
     return out
 
 
-def wstree_stage(ctx):
-    cases, hist = ws_cases(ctx)
+def _ws_fill_positions(cases):
+    """runs the harness once to learn the positions the oracle needs; returns the raw harness lines"""
     hb = diff.Engines.harness()
     raw = core.run_lines(hb, "wstree", cases)
     WS_POS.clear()
-    npos = nfiles = 0
     for c, o in zip(cases, raw):
         if "#" in o and not o.startswith("X") and not o.startswith("HANG"):
             head = o.split("#", 1)[0].split("@")
             if len(head) > 2:
-                pl = [[tuple(int(x) for x in p.split(":")) for p in ps.split(",")] if ps else [] for ps in head[2].split("|")]
-                WS_POS[c] = pl
-                npos += sum(len(p) for p in pl)
-                nfiles += len(pl)
+                WS_POS[c] = [[tuple(int(x) for x in p.split(":")) for p in ps.split(",")] if ps else [] for ps in head[2].split("|")]
+    return raw
+
+
+def _dt_fill_positions(cases):
+    hb = diff.Engines.harness()
+    raw = core.run_lines(hb, "deftree", cases)
+    DT_POS.clear()
+    for c, o in zip(cases, raw):
+        if "#" in o and not o.startswith("X"):
+            head = o.split("#", 1)[0].split("@")
+            DT_POS[c] = [tuple(int(x) for x in p.split(":")) for p in head[2].split(",")] if len(head) > 2 and head[2] else []
+    return raw
+
+
+def wstree_stage(ctx):
+    cases, hist = ws_cases(ctx)
+    raw = _ws_fill_positions(cases)
+    npos = sum(sum(len(p) for p in pl) for pl in WS_POS.values())
+    nfiles = sum(len(pl) for pl in WS_POS.values())
     cov = diff.differential(ctx, "wstree", cases, split=dt_split, oracle=ws_oracle, canon=dt_canon, shrinker=ws_shrinker,
                             nontrivial=lambda c: sum(len(p) for p in WS_POS.get(c, ())) >= 30, describe=ws_describe)
     mod = core.run_lines(diff.Engines.model(), "wstree", raw)
